@@ -11,6 +11,7 @@
 (*   Splice(p, t, q)  the head of one text glued to the tail of another    *)
 (*   Duplicate        the text twice                                       *)
 (*   NestText(n)      an amount wrapped in n pairs of parentheses (a seed) *)
+(*   ChainText(n)     an amount that is a flat chain of n terms (a seed)   *)
 (* The design-level totality of book-keeping, loading (cycles included),   *)
 (* literals and expressions is NoStuck / Termination in their own modules. *)
 (***************************************************************************)
@@ -30,8 +31,11 @@ Rep(s, n) == IF n <= 0 THEN "" ELSE LET h == Rep(s, n \div 2) IN h \o h \o (IF n
 Cut(s, i, j) == IF j < i THEN "" ELSE SubSeq(s, i, j)
 
 NestText(n) == "2024/01/01 nest\n    A  " \o Rep("(", n) \o "1 X" \o Rep(")", n) \o "\n    B\n"
+\* `1 + 1 + ... + 1 X`: no nesting at all in the text, yet a left-deep tree as deep as the chain is long
+ChainText(n) == "2024/01/01 chain\n    A  (" \o Rep("1 + ", n - 1) \o "1 X)\n    B\n"
 Init == \/ text \in Seeds /\ steps = 0 /\ lastop = "seed"
         \/ \E n \in NestDepths : text = NestText(n) /\ steps = MaxSteps /\ lastop = "nest"
+        \/ \E n \in NestDepths : text = ChainText(n) /\ steps = MaxSteps /\ lastop = "chain"
 
 Step(op, t) == text' = t /\ steps' = steps + 1 /\ lastop' = op
 
